@@ -280,6 +280,7 @@ class World:
         self.s2c_filter = None
         self._owner_stack = ["?"]
         self._held = {}
+        self.delivered = []  # (t, client endpoint, data) in the order handed to datagram_received
         self.in_flight = 0  # datagrams scheduled but not yet delivered
 
     # -- ownership tags (which phase opened an endpoint)
@@ -405,6 +406,7 @@ class World:
                     tr.late_deliveries += 1
                     return
                 peer.sent.append((self.clock.t, data, dest))
+                self.delivered.append((self.clock.t, tr.local_addr, data))
                 tr.protocol.datagram_received(data, peer.addr)
                 return
 
@@ -412,6 +414,7 @@ class World:
         """harness-made datagram towards a client endpoint (FIFO with the rest of the traffic)"""
         def go():
             if not transport.closed:
+                self.delivered.append((self.clock.t, transport.local_addr, data))
                 transport.protocol.datagram_received(data, from_addr)
             else:
                 transport.late_deliveries += 1
